@@ -292,7 +292,9 @@ def s10_generated(ctx):
     res = StreamResult("S10-generated", rule="regenerated UnderlappingSnapValidator.validation_method (both loops, well-snapped skip, window, first hit, threaded class "
                        "attribute, ValueError branch) and TargetAreaSnapValidator.validation_method (Lean, compiled) vs the real methods: a trace with ends 0.5 / 1.05 / 1.2 / 3 x snap "
                        "from 1..3 candidates (also collinear overlapping ones), is_underlapping scripted True / False / None per candidate; ends 0.5 / 1.0 / 1.2 / 1.6 / 3 x snap "
-                       "from the boundary of 1..2 area rows with the candidate test scripted per row; non-trivial = the validator fails or raises")
+                       "from the boundary of 1..2 area rows with the candidate test scripted per row; regenerated is_underlapping / split_to_determine_triangle_errors / "
+                       "determine_middle_in_triangle vs the real functions with a scripted `split` (failure, 1..5 real pieces at 0..40 x the error distance, lengths around the triangle "
+                       "window, touching or far apart); non-trivial = the validator fails or raises / the decision is not the default")
     if ctx.gen is None:
         res.note = "gen_c10 not built (a generated module is broken): skipped"
         res.skipped["generated_driver_not_built"] = 1
@@ -341,7 +343,37 @@ def s10_generated(ctx):
         cand = [rng.random() < 0.7 for _ in areas]
         cases.append(("areaval", t, m, a, geom, areas, cand))
         reqs.append(f"areaval t={rat(t)} m={rat(m)} a={rat(a)} geom={wline(geom)} areas={area_rows(areas)} cand={','.join(str(int(b)) for b in cand)}")
+    # decision skeletons of trace_validation_utils with a scripted `split` (real LineString pieces, so distances and lengths are real)
+    import fractopo.tval.trace_validation_utils as tvu
+
+    for _ in range(budget(ctx.tier, 150, 2500)):
+        t, m = 0.01, 1.1
+        ep = (0.0, 0.0)
+        if rng.random() < 0.15:
+            pieces = None
+        else:
+            pieces = []
+            for _ in range(rng.choice([1, 1, 2, 2, 3])):
+                d = rng.choice([0.0, 0.5, 0.95, 1.05, 3.0, 40.0]) * t * m
+                x0 = float(rng.randint(-3, 3))
+                pieces.append([(x0, d), (x0 + rng.choice([-2.0, 2.0]) if x0 != 0 else 2.0, d + rng.choice([0.0, 1.0]))] if x0 != 0 else [(0.0, d), (2.0, d + 1.0)])
+        cases.append(("gisul", t, m, ep, pieces))
+        reqs.append(f"gisul t={rat(t)} m={rat(m)} ep={pt(ep)} split={'FAIL' if pieces is None else wlines(pieces)}")
+    for _ in range(budget(ctx.tier, 200, 3000)):
+        t, k = 0.01, 10.0
+        if rng.random() < 0.15:
+            pieces, ip = None, rng.random() < 0.5
+        else:
+            ip = True
+            pieces, x = [], 0.0
+            for _ in range(rng.choice([1, 2, 3, 3, 3, 3, 4, 5])):
+                ln = rng.choice([0.0005, 0.002, 0.05, 0.2, 1.0])
+                pieces.append([(x, 0.0), (x + ln, 0.0)])
+                x += ln + rng.choice([0.0, 0.0, 5.0])
+        cases.append(("gtri", t, k, ip, pieces))
+        reqs.append(f"gtri t={rat(t)} k={rat(k)} ip={int(ip)} split={'FAIL' if pieces is None else wlines(pieces)}")
     resps = ctx.gen.parallel(reqs)
+    orig_split = tvu.split
     orig_ul = tv.is_underlapping
     orig_cand = tv.TargetAreaSnapValidator.is_candidate_underlapping
     cls = tv.UnderlappingSnapValidator
@@ -349,7 +381,31 @@ def s10_generated(ctx):
     try:
         for c, req, resp in zip(cases, reqs, resps):
             res.evaluations += 1
-            if c[0] == "underlap":
+            if c[0] in ("gisul", "gtri"):
+                pieces = c[4]
+
+                class _R:
+                    def __init__(self, gs):
+                        self.geoms = gs
+
+                def scripted_split(a_, b_, _p=pieces):
+                    if _p is None:
+                        raise ValueError("scripted split failure")
+                    return _R([LineString(x) for x in _p])
+
+                tvu.split = scripted_split
+                if c[0] == "gisul":
+                    _, t, m, ep, _ = c
+                    r_ = tvu.is_underlapping(LineString([(0, 0), (0, 5)]), LineString([(-1, 1), (1, 1)]), Point(ep), t, m)
+                    want = "r=" + {None: "none", True: "true", False: "false"}[r_]
+                else:
+                    _, t, k, ip, _ = c
+                    # a failed split looks at the real intersection of the two traces: crossing (a Point) or running along each other
+                    a_ = LineString([(0, 0), (0, 5)])
+                    b_ = LineString([(-1, 1), (1, 1)]) if ip else LineString([(0, 1), (0, 3)])
+                    want = f"r={int(bool(tvu.split_to_determine_triangle_errors(a_, b_, t, k)))}"
+                res.nontrivial += int(want not in ("r=none", "r=0"))
+            elif c[0] == "underlap":
                 _, t, m, geom, cands, script, err0 = c
                 c_ls = [LineString(x) for x in cands]
 
@@ -381,6 +437,7 @@ def s10_generated(ctx):
                 res.disagreements.append(Disagreement("S10-generated", {"stream": "S10-generated", "request": req}, resp.strip(), want, None,
                                                       "regenerated validator (Lean) and the Python method disagree: translator semantics wrong"))
     finally:
+        tvu.split = orig_split
         tv.is_underlapping = orig_ul
         tv.TargetAreaSnapValidator.is_candidate_underlapping = staticmethod(orig_cand)
         cls.ERROR = orig_err
